@@ -103,18 +103,34 @@ Must be a literal string.",
     ) -> Compiled {
         let value = arguments.required("value");
         let desc_file = arguments.required_literal("desc_file", state)?;
-        let desc_file_str = desc_file
-            .try_bytes_utf8_lossy()
-            .expect("descriptor file must be a string");
+        let desc_file_str = desc_file.try_bytes_utf8_lossy().map_err(|_| {
+            function::Error::InvalidArgument {
+                keyword: "desc_file",
+                value: desc_file.clone(),
+                error: "descriptor file must be a string",
+            }
+        })?;
         let message_type = arguments.required_literal("message_type", state)?;
-        let message_type_str = message_type
-            .try_bytes_utf8_lossy()
-            .expect("message_type must be a string");
+        let message_type_str = message_type.try_bytes_utf8_lossy().map_err(|_| {
+            function::Error::InvalidArgument {
+                keyword: "message_type",
+                value: message_type.clone(),
+                error: "message_type must be a string",
+            }
+        })?;
         let os_string: OsString = desc_file_str.into_owned().into();
         let path_buf = PathBuf::from(os_string);
         let path = Path::new(&path_buf);
         let descriptor =
-            get_message_descriptor(path, &message_type_str).expect("message type not found");
+            get_message_descriptor(path, &message_type_str).map_err(|_| {
+                // A missing descriptor file or message type is a mistake in the program:
+                // report it as a compilation error instead of panicking the host.
+                function::Error::InvalidArgument {
+                    keyword: "message_type",
+                    value: message_type.clone(),
+                    error: "unable to load the message type from the descriptor file",
+                }
+            })?;
 
         Ok(ParseProtoFn { descriptor, value }.as_expr())
     }
